@@ -336,6 +336,41 @@ theorem exact_aux (hnd : ∀ c, ((w.fields c).map (·.name)).Nodup) :
             rw [if_pos h1]
             exact ⟨_, rfl, by rw [shapeOK_td]; exact h2, by simpa [paths] using h3⟩
           | _ => simp at happ
+        | nt c =>
+          cases o with
+          | coll ck xs =>
+            simp only [Bool.and_eq_true] at happ
+            obtain ⟨hnt, happ⟩ := happ
+            rw [stD_nt_some w cfg (xs := xs) rfl, if_pos hnt] at hok
+            have h0 : (stDT w cfg 0 (w.ntTys c) xs).2 = [] ∧ xs.length = (w.ntTys c).length := by
+              by_cases hl : xs.length = (w.ntTys c).length
+              · simp only [hl, bne_self_eq_false, Bool.false_eq_true, if_false] at hok
+                cases he : (stDT w cfg 0 (w.ntTys c) xs).2 with
+                | nil => exact ⟨rfl, hl⟩
+                | cons a l => rw [he] at hok; simp at hok
+              · have : (xs.length != (w.ntTys c).length) = true := by simpa using hl
+                simp [this] at hok
+            obtain ⟨fe, hfe, hfa, hsh, hp⟩ := stDT_good w cfg (w.ntTys c) xs 0 fs [] rfl
+              (fun t' _ x hx => IHo t' x (by have := List.sizeOf_lt_of_mem hx; simp; omega)) h0.1 happ
+            rw [inject_coll hbh, stD_nt_some w cfg (xs := injectL xs 0 fs ++ arityHere fs) rfl, if_pos hnt]
+            simp only [List.nil_append] at hsh
+            rcases arityOK_cases hfe with rfl | ⟨ex, hex, rfl⟩
+            · have ha : arityHere fs = [] := by rw [← hfa]; rfl
+              rw [ha] at hsh hp ⊢
+              simp only [List.append_nil, injectL_length, h0.2, bne_self_eq_false, Bool.false_eq_true, if_false,
+                List.map_nil] at hsh hp ⊢
+              simp only [isEmpty_false_of_ne (pathsI_ne_nil hne hp), if_true]
+              exact ⟨_, rfl, by rw [shapeOK_nt]; exact hsh, by simpa [paths] using hp⟩
+            · have ha : arityHere fs = ex := by rw [← hfa]; simp [arityHere]
+              rw [ha] at hsh hp ⊢
+              have hlen : ((injectL xs 0 fs ++ ex).length != (w.ntTys c).length) = true := by
+                have : 0 < ex.length := by cases ex <;> simp_all
+                simp only [List.length_append, injectL_length, h0.2, bne_iff_ne, ne_eq]; omega
+              simp only [hlen, if_true]
+              refine ⟨.ive ((stDT w cfg 0 (w.ntTys c) (injectL xs 0 fs ++ ex)).2 ++ [(Option.none, Err.leaf)]), by simp, ?_, ?_⟩
+              · rw [shapeOK_nt, shapeITup_arity]; exact hsh
+              · simpa [paths, pathsI_append, pathsI, rp, Fault.reportPath] using hp
+          | _ => simp at happ
         | _ => cases o <;> simp at happ
 
 end Paths
